@@ -1,5 +1,8 @@
 """Table of property checks: which harness parts decide which property (DESIGN.md §4).
 MANIFEST.json is generated from this table by bin/mkmanifest."""
+import os
+
+VERIF = os.path.dirname(os.path.dirname(os.path.abspath(__file__)))
 
 E1 = "E1 dsched schedule exploration"
 
@@ -118,16 +121,108 @@ CHECKS.update({
 })
 
 
+# ---- custom part kind "fuzz": a libFuzzer target (fuzz/<target>.cpp) with its semantic oracle inside ----------------
+def _fuzz_paths(part):
+    import vbuild
+    work = os.path.join(vbuild.BUILD, "fuzzwork", part["target"])
+    return work, os.path.join(VERIF, "corpus", part["corpus"])
+
+
+def _fuzz_build(part):
+    import vbuild
+    return vbuild.build_harness(part["target"], "fuzz", src=os.path.join(VERIF, "fuzz", part["target"] + ".cpp"))
+
+
 def custom_run(prop, part, tier, seed, sigs):
-    raise NotImplementedError
+    import glob, hashlib, json, shutil, subprocess, time
+    t0 = time.time()
+    binary = _fuzz_build(part)
+    work, seeds = _fuzz_paths(part)
+    shutil.rmtree(work, ignore_errors=True)
+    runs = part.get(tier, 200000)
+    jobs = 8
+    procs = []
+    for k in range(jobs):
+        d = os.path.join(work, "j%d" % k)
+        os.makedirs(os.path.join(d, "corpus"))
+        os.makedirs(os.path.join(d, "art"))
+        # half of the workers start from the seed corpus, half from an empty one (the two can behave very differently)
+        if k % 2 == 0:
+            for f in glob.glob(os.path.join(seeds, "*")):
+                shutil.copy(f, os.path.join(d, "corpus"))
+        env = dict(os.environ)
+        env["VF_FUZZ_STATS"] = os.path.join(d, "stats.json")
+        env["ASAN_OPTIONS"] = "detect_leaks=1:abort_on_error=0"
+        cmd = [binary, os.path.join(d, "corpus"), "-runs=%d" % (runs // jobs), "-seed=%d" % (int(seed) * 64 + k + 1), "-max_len=%d" % part.get("max_len", 600),
+               "-artifact_prefix=" + os.path.join(d, "art") + "/", "-print_final_stats=1", "-timeout=20", "-rss_limit_mb=2048"]
+        procs.append((d, subprocess.Popen(cmd, stdout=subprocess.DEVNULL, stderr=open(os.path.join(d, "log.txt"), "w"), env=env)))
+    res = dict(prop=prop, part=part["part"], engine="E3-libFuzzer", seed=seed, tier=tier, requested=runs, evaluations=0, distinct_nontrivial=0,
+               rule="a well-formed non-empty CPU list, or a generated topology document that contains a group of the requested cache level; distinct = inputs kept in the corpus because they reached new coverage",
+               classes={}, samples=[], failures=[], inconclusive=0, inconclusive_reasons={}, known_hits={}, crashes=0, budget_hit=False, exhaustive=False)
+    for d, p in procs:
+        p.wait()
+        log = open(os.path.join(d, "log.txt"), errors="replace").read()
+        for l in log.splitlines():
+            if "stat::number_of_executed_units" in l:
+                res["evaluations"] += int(l.split()[-1])
+        try:
+            st = json.load(open(os.path.join(d, "stats.json")))
+            for k2, v in st.items():
+                res["classes"][k2] = res["classes"].get(k2, 0) + v
+        except (OSError, ValueError):
+            pass
+        res["distinct_nontrivial"] += len(os.listdir(os.path.join(d, "corpus")))
+        for a in sorted(glob.glob(os.path.join(d, "art", "*"))):
+            base = os.path.basename(a)
+            if not (base.startswith("crash-") or base.startswith("leak-")):
+                res["inconclusive"] += 1  # slow-unit / timeout / oom: load noise, never a violation
+                res["inconclusive_reasons"][base.split("-")[0]] = res["inconclusive_reasons"].get(base.split("-")[0], 0) + 1
+                continue
+            sig, what = "fuzz-crash", ""
+            for l in log.splitlines():
+                if l.startswith("VF-FUZZ-VIOLATION"):
+                    sig = l.split("sig=")[1].split()[0]
+                    what = l
+                elif "ERROR: AddressSanitizer" in l or "runtime error:" in l or "ERROR: LeakSanitizer" in l:
+                    what = what or l
+                    sig = sig if sig != "fuzz-crash" else "sanitizer"
+            os.makedirs(os.path.join(VERIF, "replay"), exist_ok=True)
+            dst = os.path.join(VERIF, "replay", "%s-fuzz-%s" % (prop, hashlib.sha1(open(a, "rb").read()).hexdigest()[:12]))
+            shutil.copy(a, dst)
+            ok = sum(1 for _ in range(3) if subprocess.run([binary, dst], stdout=subprocess.DEVNULL, stderr=subprocess.DEVNULL).returncode != 0)
+            res["failures"].append(dict(sig=sig, msg=(what or "libFuzzer artifact " + base)[:600] + " [input file: %s]" % dst, kv="file=" + dst, index=0, replayed="%d/3" % ok, artifact=dst))
+    for d, p in procs[:2]:
+        for f in sorted(os.listdir(os.path.join(d, "corpus")))[:2]:
+            b = open(os.path.join(d, "corpus", f), "rb").read()
+            res["samples"].append("corpus entry %s: %r" % (f[:10], b[:160]))
+    res["wall_s"] = time.time() - t0
+    shutil.rmtree(work, ignore_errors=True)
+    return res
 
 
 def custom_replay(prop, part, r, path):
-    raise NotImplementedError
+    import subprocess
+    binary = _fuzz_build(part)
+    f = r.get("artifact") or r.get("kv", "")[5:]
+    p = subprocess.run([binary, f], stdout=subprocess.PIPE, stderr=subprocess.STDOUT, text=True)
+    if p.returncode != 0:
+        print("replay: FAILS (libFuzzer target exits %d on %s)" % (p.returncode, f))
+        print("VIOLATION property=%s replay=%s" % (prop, path))
+        return 1
+    print("replay: passed")
+    return 0
 
 
 def custom_known(prop, part, k):
     raise NotImplementedError
+
+
+def fuzz(target, part, corpus, quick, thorough, **kw):
+    d = dict(kind="custom", harness="fuzz/" + target, variant="fuzz", part=part, target=target, corpus=corpus, quick=quick, thorough=thorough)
+    d.update(kw)
+    return d
+
+
 NOT_YET = {}
 
 
@@ -137,6 +232,7 @@ def rc(harness, part, variant="rc", **kw):
     return d
 
 
+FUZZ_CPUSET = dict(kind="custom", harness="fuzz/cpuset_fuzz", variant="fuzz", part="fuzz", target="cpuset_fuzz", corpus="cpuset", quick=400000, thorough=24000000, max_len=600)
 RC_NOTE = "rapidcheck generates and shrinks the cases (16 independent runs with derived seeds); the oracle is a plain function so a shrunk failure replays without the library. Pure sequential code: no schedule dimension."
 CHECKS.update({
     "C17": dict(title="Static chunking arithmetic partitions ranges exactly", level="exploration",
@@ -189,7 +285,7 @@ CHECKS.update({
                 note=RC_NOTE + " The FreeBSD topology-spec XML parser is exercised by C11's fuzz target only.", design_ref="§4 C43",
                 parts=[rc("cpuset", "algebra"), rc("cpuset", "cpulist"), rc("cpuset", "strings"), rc("cpuset", "group"),
                        rc("cpuset", "strings", variant="rcasan"), rc("cpuset", "cpulist", variant="rcasan", quick=30000, thorough=300000),
-                       rc("cpuset", "group", variant="rcasan", quick=30000, thorough=300000)],
+                       rc("cpuset", "group", variant="rcasan", quick=30000, thorough=300000), FUZZ_CPUSET],
                 assumptions=["topology inputs as the producers guarantee them: L2 groups disjoint, sorted by first cpu id, cpu ids >= 0", "exact-set oracle only for well-formed lists with ids <= 2^20 (the parser's documented clamp)"]),
 })
 
@@ -359,7 +455,7 @@ CHECKS.update({
                                                  dict(harness="small", variant="rcasan", part="model", prop="C38", quick=20000, thorough=400000),
                                                  dict(harness="small", variant="rcasan", part="once", prop="C39"),
                                                  dict(harness="small", variant="rcasan", part="model", prop="C40", quick=20000, thorough=400000),
-                                                 dict(harness="cpuset", variant="rcasan", part="cpulist", prop="C43", quick=20000, thorough=300000)],
+                                                 dict(harness="cpuset", variant="rcasan", part="cpulist", prop="C43", quick=20000, thorough=300000), FUZZ_CPUSET],
                 assumptions=["ASan / UBSan / LSan (clang 14) report every violation of their class on executed paths",
                              "covers the paths the generated programs and histories execute"]),
 })
